@@ -7,11 +7,20 @@
    mark, pinned at the start of the equation; an equation environment
    declared as removed leaves at most its final punctuation mark; the
    rotation of the display collection is cyclic and neighbours differ
-   (C10).  Not proved: the row/section scheme of the full mode (which
+   (C10).  Through the loop of the maths parser, full mode
+   (C11_one_section_through_the_loop): a displayed equation of one section
+   (no & and no line break) whose body holds no declared control word,
+   environment or paragraph break, and holds an element, becomes exactly: two
+   blanks, [blank], one placeholder of the display collection pinned at the
+   first element, [final punctuation], [blank], between two action tokens;
+   the collection is rotated by one, the text behind the closing delimiter is
+   untouched.  Not proved: the row/section scheme for several sections (which
    parts advance the placeholder, operator words); decided on the C11
    stream by the structural oracle of harness/props/c11.py and by the
    correspondence run, which compares the exact placeholder sequence. *)
-From YV Require Import PyBase Token PState Parser Expand Math ExpandSites Catalogue.
+From Coq Require Import String Lia.
+From YV Require Import PyBase Token Utils Scanner PState Parser Expand Math Exec ExpandSites MathSites
+                       Catalogue.
 Open Scope Z_scope.
 
 Theorem C11_simple_mode : forall T rec fuel st buf t ename st' o rest,
@@ -25,6 +34,52 @@ Theorem C11_simple_mode : forall T rec fuel st buf t ename st' o rest,
                           /\ mem_str [c] (t_math_punctuation T) = true).
 Proof. exact display_simple. Qed.
 Print Assumptions C11_simple_mode.
+
+Theorem C11_one_section_through_the_loop : forall rd k fuel st t ename body c rest p e ph rest0,
+  buf_is_space c = false -> tk c <> KPar -> mem_str (txt c) display_stops = true ->
+  str_eqb (txt c) (s2l "&") = false -> str_eqb (txt c) (s2l "\\") = false ->
+  Forall (mok st display_stops) body -> (mmu body < k)%nat ->
+  let ts := flat_map (mconv py_tables st) body in
+  first_pos ts = Ok p ->
+  forallb is_mspace ts = false ->
+  has_elem py_tables ts = Some e ->
+  rotate (get_repls st true) = ph :: rest0 ->
+  displayed_simple st = false ->
+  exists sp1 pc sp2 lp,
+    expand_display_math py_tables (exec py_tables rd k) (S fuel) st (body ++ c :: rest) t ename false =
+      Ok (set_repls st true (ph :: rest0),
+          ([ActionT (pos t); SpaceF (pos t) [c_space; c_space]] ++ sp1 ++ [TextF (pos e) ph]
+             ++ pc ++ sp2 ++ [ActionT lp], rest)) /\
+    (lp = p \/ lp = pos e) /\
+    sp1 = (match ts with
+           | t0 :: _ => if is_mspace t0 then [SpaceF p s_space] else []
+           | [] => [] end) /\
+    (pc = [] \/ exists ch, pc = [TextF p [ch]] /\ last_char py_tables ts = [ch]
+                           /\ mem_str [ch] (t_math_punctuation py_tables) = true) /\
+    sp2 = (match rev ts with
+           | t1 :: _ => if is_mspace t1 then [SpaceF p s_space] else []
+           | [] => [] end).
+Proof. exact (display_math_plain py_tables). Qed.
+Print Assumptions C11_one_section_through_the_loop.
+
+(* on the scan of "\[ \alpha + b = c, \] x": second placeholder of the English
+   display collection at the first element, the comma, both pinned there *)
+Example C11_loop_example :
+  let st0 := init_state py_tables (s2l "en") false false true in
+  match fst (scan (t_scan py_tables) (s2l "\[ \alpha + b = c, \] x")) with
+  | t :: r =>
+      forallb (mokb st0 display_stops) (firstn 12 r) = true /\
+      option_map txt (nth_error r 12) = Some (s2l "\]") /\
+      (mmu (firstn 12 r) < 50)%nat /\
+      match expand_display_math py_tables (exec py_tables (fun _ => None) 50) 5 st0 r t
+                                (s2l "equation") false with
+      | Ok (st, (o, rest)) => Some (map (fun t => (tk t, pos t, txt t, pfix t)) o, length rest)
+      | _ => None end
+      = Some ([(KAction, 0, [], false); (KSpace, 0, s2l "  ", true);
+               (KText, 3, s2l "V-V-V", true); (KText, 3, s2l ",", true);
+               (KAction, 3, [], false)], 2%nat)
+  | [] => False end.
+Proof. vm_compute. repeat split; lia. Qed.
 
 Theorem C11_removed_environment : forall T rec fuel st buf t ename st' o rest,
   expand_display_math T rec fuel st buf t ename true = Ok (st', (o, rest)) ->
